@@ -1671,6 +1671,8 @@ impl PeerConnection {
                 .map_err(|e| crate::RtcError::Internal(format!("ICE direct error: {}", e)))?;
         }
 
+        #[cfg(rustrtc_verif)]
+        self.inner.vprobe("setremote.ice_started");
         // Create transceivers for new media sections in Offer
         if desc.sdp_type == SdpType::Offer {
             let mut transceivers = self.inner.transceivers.lock();
